@@ -99,11 +99,16 @@ static inline void queue_setup(void) {
   __CPROVER_assume(qn0 < 2 || q0[0] != q0[1]); __CPROVER_assume(qn0 < 3 || (q0[0] != q0[2] && q0[1] != q0[2]));      // an index is queued at most once
   for (unsigned k = 0; k < qn0; ++k) __CPROVER_assume(slot_lock[q0[k]].value());                                         // queued tasks are live slots
   dep[0]._lock.set(nondet_uchar() & 1); dep[1]._lock.set(nondet_uchar() & 1); lk0 = dep[0]._lock.value(); lk1 = dep[1]._lock.value();
+#ifdef NODEPS
+  for (int i = 0; i < NSLOT; ++i) { tasks()[i]._dependency[0] = nullptr; tasks()[i]._dependency[1] = nullptr; }
+#else
   for (int i = 0; i < NSLOT; ++i) { unsigned char c = nondet_uchar(); tasks()[i]._dependency[0] = (c & 1) ? &dep[0] : ((c & 2) ? &dep[1] : nullptr); tasks()[i]._dependency[1] = nullptr; }
+#endif
 }
 __attribute__((noinline)) void q1_t0(void) { got[0] = Q()->get_task(*vec()); }
 __attribute__((noinline)) void q1_t1(void) { got[1] = Q()->TRYGET(*vec()); }
-__attribute__((noinline)) void q1_setup(void) { queue_setup(); }
+__attribute__((noinline)) void qs_t0(void) { got[1] = Q()->TRYGET(*vec()); }
+__attribute__((noinline)) void q1_setup(void) { queue_setup(); got[0] = got[1] = NO_TASK; }
 static inline bool in_q0(unsigned long t) { for (unsigned k = 0; k < qn0; ++k) if (q0[k] == t) return true; return false; }
 __attribute__((noinline)) void q1_post(void) {
   TaskQueue *q = Q(); int succ = 0;
@@ -115,12 +120,20 @@ __attribute__((noinline)) void q1_post(void) {
   unsigned w = 0; for (unsigned k = 0; k < qn0; ++k) { if (q0[k] == got[0] || q0[k] == got[1]) continue; __verif_check(qarr[w] == q0[k]); ++w; }
   __verif_check(!q->_queue_lock._lock.value());
   // liveness within the bound: a queued task whose resource nobody holds (before and after) has been handed out by the blocking getter
-  for (unsigned k = 0; k < qn0; ++k) { ThreadLock *d = tasks()[q0[k]]._dependency[0]; bool was_free = (d == nullptr) || (d == &dep[0] ? !lk0 : !lk1); if (was_free && got[0] == NO_TASK) __verif_check(got[1] != NO_TASK); }
+  for (unsigned k = 0; k < qn0; ++k) { ThreadLock *d = tasks()[q0[k]]._dependency[0]; bool was_free = (d == nullptr) || (d == &dep[0] ? !lk0 : !lk1); if (was_free && got[0] == NO_TASK) __verif_check(got[1] != NO_TASK); }   // a lockable queued task is handed out
+}
+__attribute__((noinline)) void q1_post_try(void) {
+  TaskQueue *q = Q(); int succ = (got[0] != NO_TASK) + (got[1] != NO_TASK);
+  for (int k = 0; k < 2; ++k) if (got[k] != NO_TASK) __verif_check(in_q0(got[k]));
+  __verif_check(got[0] == NO_TASK || got[0] != got[1]);
+  __verif_check(q->_current_queue_size == qn0 - succ);
+  __verif_check(!q->_queue_lock._lock.value());
+  if (qn0 == 1) __verif_check(got[0] != NO_TASK || got[1] != NO_TASK);        // the blocking getter always gets the entry if the try-getter did not
 }
 unsigned long addv;
 __attribute__((noinline)) void q2_t0(void) { Q()->add_task(addv); }
 __attribute__((noinline)) void q2_t1(void) { got[1] = Q()->get_task(*vec()); }
-__attribute__((noinline)) void q2_setup(void) { queue_setup(); addv = nondet_ulong(); __CPROVER_assume(addv < NSLOT && !in_q0(addv) && slot_lock[addv].value()); }
+__attribute__((noinline)) void q2_setup(void) { queue_setup(); got[0] = got[1] = NO_TASK; addv = nondet_ulong(); __CPROVER_assume(addv < NSLOT && !in_q0(addv) && slot_lock[addv].value()); }
 __attribute__((noinline)) void q2_post(void) {
   TaskQueue *q = Q(); int succ = got[1] != NO_TASK;
   __verif_check(q->_current_queue_size == qn0 + 1 - succ);
